@@ -14,6 +14,7 @@ import k4
 import k5
 import k6
 import k7
+import k8
 import controls
 
 _CTX = {}
@@ -49,7 +50,7 @@ BASE_ASSUME = [
 PROPS = {
     "C01": {
         "title": "The store behaves as a key-value map for every operation sequence",
-        "rules": [k2.p3_publish_after_append, k3.s1_roles, k2m.p4_merge_per_entry_order, k2m.p5_merge_outputs_before_unlink, k5.p17_read_under_index_guard, k2.p14_rollover_test, k2.p6b_pool_filled, k3.s2_live_vs_recovery, k2m.s7_s8_merge_sets],
+        "rules": [k2.p3_publish_after_append, k3.s1_roles, k2m.p4_merge_per_entry_order, k2m.p5_merge_outputs_before_unlink, k5.p17_read_under_index_guard, k2.p14_rollover_test, k2.p6b_pool_filled, k3.s2_live_vs_recovery, k2m.s7_s8_merge_sets, k8.s12_config_setters],
         "decides": "put publishes exactly the appended record's location, only after a successful append, with the id of the file the bytes went to; delete appends a tombstone, removes the key and reports presence; (fileid,len,pos) keep their roles through every call and struct; merge re-points an entry only to the bytes it just copied, at the offset before advancing, resetting the offset per output; the read happens under the index guard; rollover test after each append",
         "not_decided": "map semantics over histories as behaviour; that len/pos VALUES are right (position arithmetic inside BufWriterWithPos), LRU cache keying, value equality",
     },
@@ -79,7 +80,7 @@ PROPS = {
     },
     "C06": {
         "title": "Over the network SET/GET/DEL answer exactly as the map model, in order",
-        "rules": [k2s.p11_command_application, k2s.p12_handler_loop, k4.v2_parse_frame, k4.v6_write_frame_flushes, k3.s9_command_table, k2.p6b_pool_filled, k2.p3_publish_after_append, k2.p18_handle_delegation],
+        "rules": [k2s.p11_command_application, k2s.p12_handler_loop, k4.v2_parse_frame, k4.v6_write_frame_flushes, k3.s9_command_table, k2.p6b_pool_filled, k2.p3_publish_after_append, k2.p18_handle_delegation, k8.s9b_client_encoders],
         "decides": "one reply per applied command, after the storage call completed, none on error paths, with the prescribed variant and the stored bytes; DEL counts Ok(true); the connection loop is read→parse→apply→reply; Incomplete ⇒ read more; exactly the checked length is consumed on every path and the read buffer is never replaced; every reply is flushed unconditionally; command names matched by full equality",
         "not_decided": "byte-for-byte value equality and segmentation independence as observed behaviour",
     },
@@ -97,19 +98,19 @@ PROPS = {
     },
     "C09": {
         "title": "With sync=always an acknowledged write survives power loss, merges included",
-        "rules": [k2.p2_sync_always, k2.p19_sync_chain, k2m.p5_merge_outputs_before_unlink, k5.ghint_hint_validation, k4.v1_log_iterator_eof],
+        "rules": [k2.p2_sync_always, k2.p19_sync_chain, k2m.p5_merge_outputs_before_unlink, k5.ghint_hint_validation, k4.v1_log_iterator_eof, k8.s12_config_setters],
         "decides": "Always ⇒ every successful append is followed by a checked fsync of the same file before Ok and before any rollover; LogWriter::sync reaches File::sync_all; merge flushes+fsyncs data AND hint outputs (checked) before replacing them, before the first unlink and before Ok; hint entries are admitted only if within the data file",
         "not_decided": "the storage stack below fsync; the power-loss model itself",
     },
     "C10": {
         "title": "Hostile or malformed input harms only the connection that sent it",
-        "rules": [k2s.p10_accept_loop, k2s.p12_handler_loop, k1.w4_no_abort, controls.control("W4"), k5.r1_bounded_recursion, controls.control("R1"), k1.w5_permit_ops, k3.s9_command_table],
+        "rules": [k2s.p10_accept_loop, k2s.p12_handler_loop, k1.w4_no_abort, controls.control("W4"), k5.r1_bounded_recursion, controls.control("R1"), k1.w5_permit_ops, k3.s9_command_table, k8.p10b_accept_backoff, k4.v3_read_frame_eof],
         "decides": "each connection runs in its own spawned task that owns its Handler (a panic ends one task; the permit returns via Drop); only commands validated by Command::try_from reach set/del, names by full equality; no exit/abort/panic=abort; recursion bounded",
         "not_decided": "that other connections observe correct answers meanwhile",
     },
     "C11": {
         "title": "Concurrent clients see one linearizable store",
-        "rules": [k2s.p11_command_application, k2.p18_handle_delegation, k1.w2_index_mutators, k5.p17_read_under_index_guard, k2.p3_publish_after_append, k3.s2_live_vs_recovery],
+        "rules": [k2s.p11_command_application, k2.p18_handle_delegation, k1.w2_index_mutators, k5.p17_read_under_index_guard, k2.p3_publish_after_append, k3.s2_live_vs_recovery, k8.s9b_client_encoders],
         "decides": "a reply is written only after the blocking storage call completed and its result was taken on the Ok edge; the store-level discipline the anchors name (single writer for index mutation, read under shard guard)",
         "not_decided": "linearizability itself",
     },
@@ -134,25 +135,25 @@ PROPS = {
     },
     "C15": {
         "title": "The connection limit holds and slots are never leaked",
-        "rules": [k2s.p10_accept_loop, k1.w5_permit_ops, k4.v3_read_frame_eof],
+        "rules": [k2s.p10_accept_loop, k1.w5_permit_ops, k4.v3_read_frame_eof, k8.p10b_accept_backoff],
         "decides": "take-and-forget before accept once per iteration; handler built and moved into the task on every continuing path; the only release is +1 in Handler's Drop (runs on return, error, panic, cancellation); semaphore sized from max_connections; no Handler leak",
         "not_decided": "the run-time count of live connections",
     },
     "C16": {
         "title": "Graceful shutdown terminates, keeps acknowledged data, and tears no reply",
-        "rules": [k2s.p9_server_shutdown_handshake, k2s.p12_handler_loop, k4.v3_read_frame_eof, k2s.p10_accept_loop, k4.v6_write_frame_flushes],
+        "rules": [k2s.p9_server_shutdown_handshake, k2s.p12_handler_loop, k4.v3_read_frame_eof, k2s.p10_accept_loop, k4.v6_write_frame_flushes, k8.p20_shutdown_helper],
         "decides": "run(): notify, drop own completion sender, then wait, on every path; reading is raced with shutdown, applying a command is not; EOF mid-frame is an error path; every handler holds a completion sender and a subscription; replies are flushed",
         "not_decided": "bounded time; a client that never reads its replies",
     },
     "C17": {
         "title": "A closed store rejects all use and stops its background worker",
-        "rules": [k2.p7_closed_check, k2s.p8_background_worker, k2s.p15_interval_loops],
+        "rules": [k2.p7_closed_check, k2s.p8_background_worker, k2s.p15_interval_loops, k8.p20_shutdown_helper],
         "decides": "every Handle operation reaching writer/readers is dominated by the closed check (method set computed); Drop closes; the worker drops its own sender/handle before blocking; both loops race their sleep with shutdown and leave on it",
         "not_decided": "thread and descriptor counts after N cycles",
     },
     "C18": {
         "title": "Background merge and sync follow the configured policy",
-        "rules": [k4.v4_never_policy, k2s.p15_interval_loops, k2.p19_sync_chain, k1.w6_merge_sync_entry, k3.s5_trigger_threshold_roles],
+        "rules": [k4.v4_never_policy, k2s.p15_interval_loops, k2.p19_sync_chain, k1.w6_merge_sync_entry, k3.s5_trigger_threshold_roles, k8.v4b_window_policy, k8.s12_config_setters],
         "decides": "Never ⇒ no path to merge; merge only behind can_merge()==true; triggers decide whether, thresholds decide which, like compared with like in the selecting direction; each tick of the sync loop reaches the fsync; periodic sync exactly under IntervalMs with its period",
         "not_decided": "timing ('within one interval plus jitter')",
     },
